@@ -1,4 +1,5 @@
 import MithrilModel.ClerkFixed
+import MithrilModel.ClerkVerify
 /-!
 # C02 — Aggregation completeness and monotonicity under extra or repeated signatures
 
@@ -61,6 +62,23 @@ theorem C02_duplicate_counterexample_before_repair : ¬ C02_monotone_goal_before
 
 theorem C02_duplicate_repaired :
     (∃ r, selectMerged 2 [s1] = .ok r) ∧ (∃ r, selectMerged 2 [s1, s1] = .ok r) := dup_repaired
+
+/-- **… and its result verifies**: what the clerk selects passes every check of the C01 verifier model
+(`StmVerify.verify` = `AggregateSignature::verify`), given completeness of the primitives: a valid single
+signature won every index it claims (all `< m`), the batch path of registered leaves verifies, the
+aggregate of individually valid BLS signatures verifies. -/
+theorem C02_aggregate_verifies (E : StmVerify.Env) (stakeOf : Nat → Nat) (sigs out : List Sig)
+    (h : selectMerged E.k sigs = .ok out)
+    (hvalid : ∀ s ∈ sigs, s.valid = true → ∀ i ∈ s.idxs, i < E.m ∧ E.won s.sigma i (stakeOf s.party) = true)
+    (hbatch : E.batchOk ((out.map (ClerkVerify.conv stakeOf)).map fun s => (s.vk, s.stake)) = true)
+    (hagg : E.aggOk ((out.map (ClerkVerify.conv stakeOf)).map fun s => (s.vk, s.sigma)) = true) :
+    StmVerify.verify E (out.map (ClerkVerify.conv stakeOf)) = .ok () :=
+  ClerkVerify.aggregate_verifies E stakeOf sigs out h hvalid hbatch hagg
+
+/-- non-vacuity of the hypotheses of `C02_aggregate_verifies` -/
+example : StmVerify.verify { m := 10, k := 3, won := fun _ _ _ => true, batchOk := fun _ => true, aggOk := fun _ => true }
+    ((match selectMerged 3 [s1, s2, s1] with | .ok o => o | .error _ => []).map (ClerkVerify.conv fun _ => 1)) = .ok () := by
+  decide +kernel
 
 /-- non-vacuity: a list with a shared index AND a repeated signature is aggregated -/
 example : ∃ r, selectMerged 3 [s1, s2, s1] = .ok r := ⟨_, rfl⟩
